@@ -623,3 +623,84 @@ Proof.
 Qed.
 
 End Build.
+
+(** ** [recipe_pages] only ever gets entries for recipe sources *)
+
+Section Keys.
+Variable E : env.
+
+Lemma model_recipes_frame sv dp me : forall rs h refs h',
+  model_recipes E sv dp me rs h = Ok (refs, h') ->
+  forall src, (forall name, In name (map fst rs) -> src <> dp ++ [name]) -> heap_get src h' = heap_get src h.
+Proof.
+  induction rs as [|[name data] rs IH]; intros h refs h' H src Hsrc.
+  - destruct sv; simpl in H; inversion H; reflexivity.
+  - destruct sv as [n|]; unfold model_recipes in *.
+    + cbn [add_scaled_recipes] in H.
+      destruct (from_recipe_source E n (dp ++ [name]) data me _) as [[ref o]|e]; [|discriminate]. cbn [bind] in H.
+      destruct (add_scaled_recipes E n dp me rs _) as [[refs0 h0]|e] eqn:Hr; [|discriminate]. cbn [bind] in H.
+      inversion H; subst. rewrite (IH _ _ _ Hr src).
+      * apply heap_get_set_other. intro Heq. apply (Hsrc name); [left; reflexivity | congruence].
+      * intros nm Hnm. apply Hsrc. right. exact Hnm.
+    + cbn [add_unscaled_recipes] in H.
+      destruct (unscaled_lookup (heap_get (dp ++ [name]) h)) as [[[m native] p]|e]; [|discriminate]. cbn [bind] in H.
+      match type of H with bind (add_unscaled_recipes dp me rs ?h1) _ = _ =>
+        destruct (add_unscaled_recipes dp me rs h1) as [[refs0 h0]|e] eqn:Hr end; [|discriminate].
+      cbn [bind] in H. inversion H; subst. rewrite (IH _ _ _ Hr src).
+      * destruct native; [reflexivity|]. apply heap_get_set_other. intro Heq. apply (Hsrc name); [left; reflexivity | congruence].
+      * intros nm Hnm. apply Hsrc. right. exact Hnm.
+Qed.
+
+Definition not_source (t : stree) (dp : path) (P : chains) (is_root : bool) (src : path) : Prop :=
+  forall data mes, ~ In (src, data, mes) (asources E t dp P is_root).
+
+Lemma from_directory_frame : forall t sv dp P is_root h c h',
+  from_directory E sv t dp (P sv) is_root h = Ok (c, h') ->
+  forall src, not_source t dp P is_root src -> heap_get src h' = heap_get src h.
+Proof.
+  induction t as [n d|n|n rn es IHes] using stree_ind'; intros sv dp P is_root h c h' H src Hns; try discriminate.
+  rewrite from_directory_eq in H. unfold not_source in Hns. rewrite asources_eq in Hns.
+  destruct (enumerate E dp rn es) as [l|e] eqn:Hen; [|discriminate]. cbn [bind] in H. cbv zeta in *.
+  set (mes := dir_mes P dp (l_title l) is_root) in *.
+  change (dir_me sv (P sv) dp (l_title l) is_root) with (mes sv) in H.
+  destruct (msubs (fun e p h0 => from_directory E sv e p (mes sv) false h0) dp es h) as [[cs h1]|e] eqn:Hs; [|discriminate].
+  cbn [bind] in H. destruct (model_recipes E sv dp (mes sv) (l_recipes l) h1) as [[refs h2]|e] eqn:Hr; [|discriminate].
+  cbn [bind] in H. inversion H; subst c h'. clear H.
+  rewrite (model_recipes_frame _ _ _ _ _ _ _ Hr src).
+  - (* sub-directories *)
+    assert (Hsub : forall data mes', ~ In (src, data, mes') (asubs (fun e p => asources E e p mes false) dp es)).
+    { intros data mes' Hin. apply (Hns data mes'). apply in_or_app. left. exact Hin. }
+    clear - IHes Hs Hsub. revert h cs h1 Hs. induction IHes as [|e r He Hr IHr]; intros h cs h1 Hs.
+    + simpl in Hs. inversion Hs. reflexivity.
+    + destruct e as [fn fd|bn|dn drn des]; cbn [msubs asubs] in *; try (eapply IHr; eassumption).
+      destruct (from_directory E sv (SDir dn drn des) (dp ++ [dn]) (mes sv) false h) as [[c0 h0]|e] eqn:Hf; [|discriminate].
+      cbn [bind] in Hs. destruct (msubs _ dp r h0) as [[cs0 h3]|e] eqn:Hm; [|discriminate]. cbn [bind] in Hs.
+      inversion Hs; subst. rewrite (IHr (fun data mes' Hin => Hsub data mes' (in_or_app _ _ _ (or_intror Hin))) _ _ _ Hm).
+      apply (He sv (dp ++ [dn]) mes false h c0 h0 Hf). intros data mes' Hin. apply (Hsub data mes'). apply in_or_app. left. exact Hin.
+  - intros name Hname Heq. apply in_map_iff in Hname as ([nm dt] & Hnm & Hin). simpl in Hnm. subst nm.
+    apply (Hns dt mes). apply in_or_app. right. apply in_map_iff. exists (name, dt). split; [rewrite Heq; reflexivity | exact Hin].
+Qed.
+
+Theorem from_root_directory_keys t root M hm h :
+  from_root_directory E t root M = Ok (hm, h) ->
+  forall src, not_source t root (fun _ => [(h_title hm, home_path)]) true src -> heap_get src h = None.
+Proof.
+  unfold from_root_directory. destruct t as [n d|n|n rn es]; try discriminate.
+  destruct (enumerate E root rn es) as [l|e]; [|discriminate]. cbn [bind].
+  set (hc := [(l_title l, home_path)]).
+  assert (Hloop : forall ns h0 sc h1, build_scaled E (SDir n rn es) root hc ns h0 = Ok (sc, h1) ->
+            forall src, not_source (SDir n rn es) root (fun _ => hc) true src -> heap_get src h1 = heap_get src h0).
+  { induction ns as [|k ns IH]; intros h0 sc h1 H src Hns; cbn [build_scaled] in H.
+    - inversion H. reflexivity.
+    - destruct (from_directory E (Some k) (SDir n rn es) root hc true h0) as [[c0 h2]|e] eqn:Hf; [|discriminate].
+      cbn [bind] in H. destruct (build_scaled E (SDir n rn es) root hc ns h2) as [[cs h3]|e] eqn:Hb; [|discriminate].
+      cbn [bind] in H. inversion H; subst. rewrite (IH _ _ _ Hb src Hns).
+      apply (from_directory_frame (SDir n rn es) (Some k) root (fun _ => hc) true h0 c0 h2 Hf src Hns). }
+  destruct (build_scaled E (SDir n rn es) root hc (N_seq 1 (N.to_nat M)) []) as [[sc h1]|e] eqn:Hb; [|discriminate].
+  cbn [bind]. destruct (from_directory E None (SDir n rn es) root hc true h1) as [[un h2]|e] eqn:Hf; [|discriminate].
+  cbn [bind]. intro H. inversion H; subst hm h. cbn [h_title]. intros src Hns.
+  rewrite (from_directory_frame (SDir n rn es) None root (fun _ => hc) true h1 un h2 Hf src Hns).
+  rewrite (Hloop _ _ _ _ Hb src Hns). reflexivity.
+Qed.
+
+End Keys.
